@@ -38,7 +38,9 @@ func c14Rename(tc *scCase) []scItem {
 			it.U = nm(it.U, it.B)
 			it.N = c14Name(it.ID)
 			it.M = c14Name(it.Mid)
-		case "use", "while", "if", "elseif", "until":
+		case "require":
+			it.N = c14Name(it.ID)
+		case "use", "while", "if", "elseif", "until", "ret":
 			it.U = nm(it.U, it.B)
 		case "assign":
 			if it.U != "-" && it.U != "" {
